@@ -1,6 +1,7 @@
 """Native oracle for C11 (bounded layer): session histories on the real compiler.
 
-A module with a dozen definitions (structs, generic functions, nested functions, loops, comptime,
+A module with a dozen definitions (structs, generic functions, nested functions — one of them
+recursive and named like a module-level definition —, loops, comptime,
 overloads, a broken function and a broken struct) is loaded.  For every TARGET definition the HUGR
 is compiled (a) in a fresh interpreter process with no history and (b) after each of a set of
 session histories (other definitions checked/compiled before, the target compiled once or twice
@@ -85,6 +86,15 @@ def traced(n: int) -> int:
 def uses_traced(n: int) -> int:
     return traced(n) + helper(n)
 
+@guppy
+def shadow_user(n: int) -> int:
+    # a non-capturing RECURSIVE nested function with the name of a module-level definition
+    def helper(k: int) -> int:
+        if k <= 0:
+            return 0
+        return k + helper(k - 1)
+    return helper(n)
+
 @guppy.comptime
 def bad_traced(n: int) -> int:
     return undefined_thing + n
@@ -101,7 +111,7 @@ def uses_broken_struct(b: BrokenStruct) -> int:
 ORACLE = r'''
 import os, sys, json, re, subprocess, tempfile, importlib.util, shutil, hashlib
 
-TARGETS = ["helper", "loops", "structs", "nested", "quantum", "arrays", "uses_traced", "ident"]
+TARGETS = ["helper", "loops", "structs", "nested", "quantum", "arrays", "uses_traced", "ident", "shadow_user"]
 FAILING = ["broken_fn", "uses_broken_struct"]
 
 def load(d):
@@ -175,7 +185,10 @@ try:
     for t in mine:
         for hist in histories(t):
             outcomes = [act(m, st) for st in hist]
-            got = ser(getattr(m, t).compile_function())
+            try:
+                got = ser(getattr(m, t).compile_function())
+            except Exception as ex:
+                got = f"<compile raised {type(ex).__name__}: {str(ex)[:120]}>"      # the fresh session compiled it
             n += 1
             if got != base[t] and bad is None:
                 import difflib
@@ -192,7 +205,11 @@ try:
         r = act(m, ("compile", "bad_traced")); n += 1
         if tracing_active() and bad is None:
             bad = {"target": "bad_traced", "history": [("compile", "bad_traced")], "detail": f"after the failed comptime compile ({r}) tracing_active() is still True: Guppy functions can be called from plain Python"}
-        got = ser(getattr(m, t).compile_function()); n += 1
+        try:
+            got = ser(getattr(m, t).compile_function())
+        except Exception as ex:
+            got = f"<compile raised {type(ex).__name__}: {str(ex)[:120]}>"
+        n += 1
         if got != base[t] and bad is None:
             bad = {"target": t, "history": [("compile", "bad_traced")], "detail": f"HUGR of `{t}` differs after a failed comptime compile"}
 finally:
